@@ -178,6 +178,13 @@ def check_stream(cfg, msgs, seg, k, a, b, cid):
         if missing and k != "p" and not any(not _is_header(msgs[i]) for i in got):
             # nothing but headers received so far: what is missing may sit in the merge buffer behind other messages
             missing = lst[(lst.index(got[-1]) + 1) if got else 0:]
+            # ... or the player is still made to wait for a key frame (whether it may be is C02's question, not
+            # C01's): only a key frame among the missing messages ends every wait, from there on the run is due
+            keys = [j for j, i in enumerate(missing) if fanout.classify_payload(msgs[i][0], msgs[i][2]) == "key"]
+            if not keys and got:
+                continue
+            if keys and got:
+                missing = missing[keys[0]:]
         if missing:
             if k == "r" and cfg.get("mw", 0) > 0:
                 size = sum(fanout.chunk_len(len(_wo(msgs[i])), msgs[i][1], cfg.get("extfix", 0)) for i in missing)
